@@ -44,6 +44,7 @@ func runCorpus(r *core.Run) bool {
 			if json.Unmarshal(en.Case, &c) != nil {
 				continue
 			}
+			c.resolve()
 			if be == nil || be.broken {
 				be = newBEngine()
 			}
@@ -56,6 +57,7 @@ func runCorpus(r *core.Run) bool {
 			if json.Unmarshal(en.Case, &c) != nil || c.Kind >= len(aKinds) || len(c.Variant) == 0 {
 				continue
 			}
+			c.resolve()
 			if ae == nil || ae.broken {
 				ae = newAEngine()
 			}
